@@ -110,6 +110,7 @@ type checker struct {
 	addOK, disables, invalid int
 	shadowed, zeroCF         int
 	invalidInput             int
+	blocks, ranges           int
 }
 
 func (k *checker) where() string {
@@ -261,7 +262,10 @@ func (k *checker) checkState(full, tableChanged bool, touched ...int) string {
 	if v := k.checkCFList(); v != "" {
 		return v
 	}
-	return k.checkPlannerEncodable(full)
+	if v := k.checkPlannerEncodable(full); v != "" {
+		return v
+	}
+	return k.checkCommandBlock()
 }
 
 func partition(all, a, b []int) string {
@@ -841,9 +845,15 @@ func (k *checker) checkPlannerEncodable(full bool) string {
 			std = append(std, i)
 		}
 	}
-	devs := [][]int{std, nil, all}
+	var cur []int
+	for i, c := range m.up {
+		if c.enabled {
+			cur = append(cur, i)
+		}
+	}
+	devs := [][]int{std, nil, all, cur}
 	if !full {
-		devs = devs[(k.step+3)%3:][:1] // one device state per intermediate step, all three on full steps
+		devs = devs[(k.step+4)%4:][:1] // one device state per intermediate step, all four on full steps
 	}
 	for _, dev := range devs {
 		pls := k.b.GetLinkADRReqPayloadsForEnabledUplinkChannelIndices(dev)
@@ -859,6 +869,148 @@ func (k *checker) checkPlannerEncodable(full bool) string {
 		}
 	}
 	return ""
+}
+
+// checkCommandBlock: the commands that carry the band's values travel together in one downlink. The frequency
+// commands whose encoder accepted the value (refusals are judged by the per-command checks), followed by the
+// planner's LinkADRReq block, are placed (a) in the FRMPayload of a port-0 downlink and (b) - as many as fit 15
+// octets - in its FOpts; the frame is encoded, decoded into a fresh PHYPayload, and the commands that come out
+// must be the commands that went in, in order. The list is rotated by the device address so that every command
+// type gets every successor.
+func (k *checker) checkCommandBlock() string {
+	b := k.b
+	d := b.GetDefaults()
+	var cmds []lorawan.MACCommand
+	add := func(cid lorawan.CID, pl lorawan.MACCommandPayload) {
+		if _, err := pl.MarshalBinary(); err == nil {
+			cmds = append(cmds, lorawan.MACCommand{CID: cid, Payload: pl})
+		}
+	}
+	if d.RX2DataRate >= 0 && d.RX2DataRate <= 15 {
+		add(lorawan.RXParamSetupReq, &lorawan.RXParamSetupReqPayload{Frequency: d.RX2Frequency, DLSettings: lorawan.DLSettings{RX2DataRate: uint8(d.RX2DataRate), RX1DROffset: 1}})
+	}
+	var da lorawan.DevAddr
+	da[0], da[1], da[2], da[3] = byte(k.c.DevAddr>>24), byte(k.c.DevAddr>>16), byte(k.c.DevAddr>>8), byte(k.c.DevAddr)
+	if pf, err := b.GetPingSlotFrequency(da, time.Duration(k.c.BeaconS)*time.Second); err == nil {
+		add(lorawan.PingSlotChannelReq, &lorawan.PingSlotChannelReqPayload{Frequency: pf, DR: uint8(d.RX2DataRate) & 15})
+		add(lorawan.BeaconFreqReq, &lorawan.BeaconFreqReqPayload{Frequency: pf})
+	}
+	// the newest and the first channel of both tables
+	for _, i := range []int{len(k.m.up) - 1, 0} {
+		if c := k.m.up[i]; c.validInput && i <= 255 && c.minDR >= 0 && c.minDR <= 15 && c.maxDR >= 0 && c.maxDR <= 15 {
+			add(lorawan.NewChannelReq, &lorawan.NewChannelReqPayload{ChIndex: uint8(i), Freq: c.freq, MinDR: uint8(c.minDR), MaxDR: uint8(c.maxDR)})
+		}
+	}
+	for _, i := range []int{len(k.m.down) - 1, 0} {
+		if c := k.m.down[i]; c.validInput && i <= 255 {
+			add(lorawan.DLChannelReq, &lorawan.DLChannelReqPayload{ChIndex: uint8(i), Freq: c.freq})
+		}
+	}
+	if len(cmds) > 1 {
+		r := int(k.c.DevAddr % uint32(len(cmds)))
+		cmds = append(append([]lorawan.MACCommand{}, cmds[r:]...), cmds[:r]...)
+	}
+	var std []int
+	for i, c := range k.m.up {
+		if !c.custom {
+			std = append(std, i)
+		}
+	}
+	for _, pl := range b.GetLinkADRReqPayloadsForEnabledUplinkChannelIndices(std) {
+		pl := pl
+		add(lorawan.LinkADRReq, &pl)
+	}
+	if len(cmds) == 0 {
+		return ""
+	}
+	key := lorawan.AES128Key{1, 2, 3, 4, 5, 6, 7, 8, 9, 10, 11, 12, 13, 14, 15, 16}
+	describe := func(cs []lorawan.MACCommand) string {
+		var sb strings.Builder
+		for _, c := range cs {
+			fmt.Fprintf(&sb, " %v%+v", c.CID, c.Payload)
+		}
+		return sb.String()
+	}
+	compare := func(where string, sent []lorawan.MACCommand, got []lorawan.Payload) string {
+		if len(got) != len(sent) {
+			return fmt.Sprintf("%s: a downlink carrying%s in its %s decodes to %d commands instead of %d", k.where(), describe(sent), where, len(got), len(sent))
+		}
+		for i := range sent {
+			g, ok := got[i].(*lorawan.MACCommand)
+			if !ok || g.CID != sent[i].CID || !reflect.DeepEqual(g.Payload, sent[i].Payload) {
+				return fmt.Sprintf("%s: a downlink carrying%s in its %s: command %d comes back as %+v", k.where(), describe(sent), where, i, got[i])
+			}
+		}
+		return ""
+	}
+	frame := func(fopts, frm []lorawan.MACCommand) (*lorawan.PHYPayload, string) {
+		mp := &lorawan.MACPayload{FHDR: lorawan.FHDR{DevAddr: da, FCnt: k.c.BeaconS & 0xffff}}
+		for i := range fopts {
+			c := fopts[i]
+			mp.FHDR.FOpts = append(mp.FHDR.FOpts, &c)
+		}
+		if frm != nil {
+			var zero uint8
+			mp.FPort = &zero
+			for i := range frm {
+				c := frm[i]
+				mp.FRMPayload = append(mp.FRMPayload, &c)
+			}
+		}
+		phy := &lorawan.PHYPayload{MHDR: lorawan.MHDR{MType: lorawan.UnconfirmedDataDown, Major: lorawan.LoRaWANR1}, MACPayload: mp}
+		if frm != nil {
+			if err := phy.EncryptFRMPayload(key); err != nil {
+				return nil, fmt.Sprintf("%s: EncryptFRMPayload of a downlink carrying%s: %v", k.where(), describe(frm), err)
+			}
+		}
+		if err := phy.SetDownlinkDataMIC(lorawan.LoRaWAN1_0, 0, key); err != nil {
+			return nil, fmt.Sprintf("%s: SetDownlinkDataMIC of a downlink carrying%s%s: %v", k.where(), describe(fopts), describe(frm), err)
+		}
+		bin, err := phy.MarshalBinary()
+		if err != nil {
+			return nil, fmt.Sprintf("%s: a downlink carrying%s%s cannot be encoded: %v", k.where(), describe(fopts), describe(frm), err)
+		}
+		back := &lorawan.PHYPayload{}
+		if err := back.UnmarshalBinary(bin); err != nil {
+			return nil, fmt.Sprintf("%s: the downlink %x carrying%s%s does not decode: %v", k.where(), bin, describe(fopts), describe(frm), err)
+		}
+		return back, ""
+	}
+	// (a) FRMPayload on port 0
+	back, v := frame(nil, cmds)
+	if v != "" {
+		return v
+	}
+	if err := back.DecryptFRMPayload(key); err != nil {
+		return fmt.Sprintf("%s: DecryptFRMPayload of a downlink carrying%s: %v", k.where(), describe(cmds), err)
+	}
+	if v := compare("FRMPayload", cmds, back.MACPayload.(*lorawan.MACPayload).FRMPayload); v != "" {
+		return v
+	}
+	// (b) FOpts: windows of the list that fit 15 octets, starting at every position once over the steps
+	start := (k.step + 1) % len(cmds)
+	var win []lorawan.MACCommand
+	size := 0
+	for i := start; i < len(cmds); i++ {
+		bin, _ := cmds[i].MarshalBinary()
+		if size+len(bin) > 15 {
+			break
+		}
+		size += len(bin)
+		win = append(win, cmds[i])
+	}
+	if len(win) == 0 {
+		return ""
+	}
+	back, v = frame(win, nil)
+	if v != "" {
+		return v
+	}
+	if err := back.DecodeFOptsToMACCommands(); err != nil {
+		return fmt.Sprintf("%s: DecodeFOptsToMACCommands of a downlink carrying%s: %v", k.where(), describe(win), err)
+	}
+	k.blocks++
+	return compare("FOpts", win, back.MACPayload.(*lorawan.MACPayload).FHDR.FOpts)
 }
 
 // ---------------------------------------------------------------- running a history
@@ -958,6 +1110,25 @@ func checkHistory(c Case) evid.Outcome {
 					return evid.Fail("%s: %s(%d) returns no error although the plan has %d channels", k.where(), name, op.A, n)
 				}
 			}
+		case "disable-range", "enable-range":
+			// A..B (valid indices), one API call per channel: the way a network server selects a sub-band
+			if op.A < 0 || op.B >= n || op.A > op.B {
+				return evid.Outcome{Skip: true}
+			}
+			f := b.DisableUplinkChannelIndex
+			if op.Op == "enable-range" {
+				f = b.EnableUplinkChannelIndex
+			}
+			for x := op.A; x <= op.B; x++ {
+				if p := try(func() { err = f(x) }); p != nil || err != nil {
+					return evid.Fail("%s: %s: index %d with %d channels: panic %v, error %v", k.where(), op.Op, x, n, p, err)
+				}
+				m.up[x].enabled = op.Op == "enable-range"
+			}
+			k.ranges++
+			if op.Op == "disable-range" {
+				k.disables++
+			}
 		default:
 			return evid.Outcome{Skip: true}
 		}
@@ -1006,6 +1177,9 @@ func checkHistory(c Case) evid.Outcome {
 	}
 	if k.invalidInput > 0 {
 		cls += "/cflist-caller-freq"
+	}
+	if k.ranges > 0 {
+		cls += "/sub-band-ops"
 	}
 	if k.k3 != "" {
 		return evid.Outcome{Violation: k.k3, Known: "K3", Class: cls + "/K3"}
@@ -1177,6 +1351,29 @@ func genHistory(wild bool) func(*rapid.T) Case {
 			if k >= 7 {
 				op.Op = "enable"
 			}
+			if !fa.dynamic && rapid.IntRange(0, 2).Draw(t, "range") == 0 {
+				// sub-band shaped: 8 channels, a 16-channel block, the 500 kHz channels, all 125 kHz channels, everything
+				op.Op += "-range"
+				switch rapid.IntRange(0, 5).Draw(t, "shape") {
+				case 0, 1:
+					op.A = 8 * rapid.IntRange(0, n/8-1).Draw(t, "sub")
+					op.B = op.A + 7
+				case 2:
+					op.A = 16 * rapid.IntRange(0, (n-1)/16).Draw(t, "blk")
+					op.B = op.A + 15
+					if op.B >= n {
+						op.B = n - 1
+					}
+				case 3:
+					op.A, op.B = 64, 71
+				case 4:
+					op.A, op.B = 0, 63
+				default:
+					op.A, op.B = 0, n-1
+				}
+				c.Ops = append(c.Ops, op)
+				continue
+			}
 			switch {
 			case wild:
 				op.A = genWildInt(t, n, "idx")
@@ -1195,11 +1392,11 @@ func TestProp(t *testing.T) {
 	r := evid.Begin(t, "C15")
 	defer r.Finish()
 
-	const oracle = " Oracle: a model (slice of channel records {frequency, MinDR, MaxDR, enabled, custom}; AddChannel appends an enabled=(frequency != 0) custom record to uplink and downlink tables on the 11 dynamic plans and fails without effect on US915/AU915/CN470; Disable/Enable flip one flag for 0 <= i < n and fail otherwise). After EVERY step: the five index-set getters equal the model and partition, GetUplinkChannel/GetDownlinkChannel equal the model record by record, and so does the snapshot hook (taken on the fresh band, after every successful AddChannel and on the last step) (so standard channels never change), GetUplinkChannelIndex(f, default) and GetUplinkChannelIndexForFrequencyDR(f, dr) for every channel frequency x {default, custom} x DR {min, max, min-1, max+1} return a matching channel or an error exactly when none matches (all channels on the fresh band, on the last step and after an AddChannel that repeats an existing frequency; the op's channel and the newest channel on the other steps) (a match shadowed by another custom channel on the same frequency is counted, not judged), index n (n+1 too on the fresh band, the last step and after a frequency-repeating AddChannel) and the op's own integers are probed on GetUplinkChannel/GetDownlinkChannel/GetTXPowerOffset/GetRX1DataRateIndex (error, never panic; valid ones give the model value), GetEnabledUplinkDataRates (only while all DR ranges are small) is ascending, covers the enabled channels and nothing no channel has; GetCFList for the 6 protocol versions: fixed plans nil before 1.0.3, else exactly the enabled bits; dynamic plans the first five of the custom channels with the band's CFList DR range in order (disabled ones optional; in states with a zero-frequency candidate the list is positional: exactly the first five candidates, zeros included, or nil when the first is zero), nil if none; MAC layer: default and validly added channels through NewChannelReq / DLChannelReq, RX2 default through RXParamSetupReq, ping-slot frequency through PingSlotChannelReq and BeaconFreqReq, the CFList bare and inside a JoinAcceptPayload, the planner's LinkADRReq payloads (device state = standard channels / none / all, one of them per step and all three on the fresh band and the last step) - each must encode and decode to the same values (asserted only for frequencies that are valid caller input: multiple of 100 Hz in 0.1-1 GHz, multiple of 200 Hz in 2.4-2.5 GHz, or 0). ISM2400 frequencies refused with the max-value error by the five 100-Hz encoders are the known finding K3. Non-trivial: at least one successful AddChannel and one successful Disable, or a Disable/Enable with an invalid index."
+	const oracle = " Oracle: a model (slice of channel records {frequency, MinDR, MaxDR, enabled, custom}; AddChannel appends an enabled=(frequency != 0) custom record to uplink and downlink tables on the 11 dynamic plans and fails without effect on US915/AU915/CN470; Disable/Enable flip one flag for 0 <= i < n and fail otherwise). After EVERY step: the five index-set getters equal the model and partition, GetUplinkChannel/GetDownlinkChannel equal the model record by record, and so does the snapshot hook (taken on the fresh band, after every successful AddChannel and on the last step) (so standard channels never change), GetUplinkChannelIndex(f, default) and GetUplinkChannelIndexForFrequencyDR(f, dr) for every channel frequency x {default, custom} x DR {min, max, min-1, max+1} return a matching channel or an error exactly when none matches (all channels on the fresh band, on the last step and after an AddChannel that repeats an existing frequency; the op's channel and the newest channel on the other steps) (a match shadowed by another custom channel on the same frequency is counted, not judged), index n (n+1 too on the fresh band, the last step and after a frequency-repeating AddChannel) and the op's own integers are probed on GetUplinkChannel/GetDownlinkChannel/GetTXPowerOffset/GetRX1DataRateIndex (error, never panic; valid ones give the model value), GetEnabledUplinkDataRates (only while all DR ranges are small) is ascending, covers the enabled channels and nothing no channel has; GetCFList for the 6 protocol versions: fixed plans nil before 1.0.3, else exactly the enabled bits; dynamic plans the first five of the custom channels with the band's CFList DR range in order (disabled ones optional; in states with a zero-frequency candidate the list is positional: exactly the first five candidates, zeros included, or nil when the first is zero), nil if none; MAC layer: default and validly added channels through NewChannelReq / DLChannelReq, RX2 default through RXParamSetupReq, ping-slot frequency through PingSlotChannelReq and BeaconFreqReq, the CFList bare and inside a JoinAcceptPayload, the planner's LinkADRReq payloads (device state = standard channels / none / all / the enabled set, one of them per step and all four on the fresh band and the last step), and the commands together in one downlink (RXParamSetupReq, PingSlotChannelReq, BeaconFreqReq, NewChannelReq and DLChannelReq of the newest and first channel - those the encoders accept - rotated by the device address, followed by the planner's LinkADRReq block: as FRMPayload of an encrypted port-0 downlink and, as many as fit 15 octets, as FOpts; frame encoded, decoded into a fresh PHYPayload, commands compared in order) - each must encode and decode to the same values (asserted only for frequencies that are valid caller input: multiple of 100 Hz in 0.1-1 GHz, multiple of 200 Hz in 2.4-2.5 GHz, or 0). ISM2400 frequencies refused with the max-value error by the five 100-Hz encoders are the known finding K3. Non-trivial: at least one successful AddChannel and one successful Disable, or a Disable/Enable with an invalid index."
 
 	// the K3 witness lives in this sub-check, so it runs first (the framework activates a known class when its witness fails)
 	evid.Rapid(r, t, "valid-histories",
-		"rapid: band uniform over the 14 bands x repeater x dwell x 0..30 ops with VALID arguments only (AddChannel on dynamic plans with frequency near the band's channels so that frequencies collide / any valid frequency / 0, DR range = CFList range 50% / 6..6 / any 0..15 pair; Disable/Enable of existing indices, custom channels preferred 1/3) x DevAddr x beacon time for the ping-slot frequency."+oracle,
+		"rapid: band uniform over the 14 bands x repeater x dwell x 0..30 ops with VALID arguments only (AddChannel on dynamic plans with frequency near the band's channels so that frequencies collide / any valid frequency / 0, DR range = CFList range 50% / 6..6 / any 0..15 pair; Disable/Enable of existing indices, custom channels preferred 1/3; on the fixed plans 1/3 of them are sub-band shaped runs of single calls: 8 channels, a 16-channel block, 64..71, 0..63, everything) x DevAddr x beacon time for the ping-slot frequency."+oracle,
 		20000, 600000, genHistory(false), checkHistory)
 
 	evid.Rapid(r, t, "state-machine",
